@@ -64,6 +64,12 @@ def apply_layout(values, layout):
     return X, X
 
 
+def uses_precomputed_any(cfg):
+    if cfg["family"] == "Kauri":
+        return cfg["params"].get("kernel") == "precomputed"
+    return uses_precomputed(cfg)
+
+
 def dataset(cfg, which):
     """(X, A) number `which` of the pool; datasets differ in size, values and memory layout, not in the number of features."""
     c = dict(cfg)
@@ -124,6 +130,8 @@ def generate(rng):
         if k in ("fit", "fit_predict", "path", "crash_fit", "crash_path", "nan_path", "badparam_fit", "malformed_fit", "other_fit"):
             op["data"] = rng.randrange(3)
             last_ds = op["data"] if k in ("fit", "fit_predict", "path") else last_ds
+        if k in ("fit", "fit_predict", "score") and uses_precomputed_any(cfg) and rng.random() < 0.3:
+            op["no_affinity"] = True      # the precomputed matrix is not passed (Kauri: documented linear fallback; others: rejected)
         if k in ("predict", "predict_proba", "score"):
             op["data"] = last_ds if (categorical and last_ds is not None) else rng.randrange(3)
         if k == "nan_path":
@@ -263,6 +271,8 @@ def isolated_execution(payload):
     c = dict(cfg)
     c["params"] = params
     X, A = dataset(cfg, which)
+    if payload.get("no_affinity"):
+        A = None
     if cfg["family"] == "Kauri":
         m = get_class("Kauri")(**params)
     else:
@@ -419,6 +429,8 @@ def execute(record):
                 set_kernel_fault(model, None)
                 log.emit("OP", op=kind, phase="begin")
                 X, A = pool[op["data"]] if "data" in op else (None, None)
+                if op.get("no_affinity"):
+                    A = None
                 params_at_call = copy.deepcopy(user_params)
                 outcome = "ok"
                 ret = None
@@ -600,7 +612,8 @@ def execute(record):
                             else:
                                 status, iso = room.call("gemsim.scenarios.c12", "isolated_execution",
                                                         {"cfg": cfg, "params": params_at_call, "which": op.get("data", 0),
-                                                         "kind": kind, "args": op.get("args", {})})
+                                                         "kind": kind, "args": op.get("args", {}),
+                                                         "no_affinity": bool(op.get("no_affinity"))})
                                 if status != "ok":
                                     raise HarnessError("clean room: " + str(iso))
                                 res.probe("clean_room_references")
